@@ -381,7 +381,7 @@ func (m *vMachine) genOp(rt *rapid.T, i int) vOp {
 	if m.prop == "C13" {
 		kinds = append(kinds, "block", "block", "block", "repay", "close", "draw")
 	}
-	if m.prop == "C13" && len(cfg.Lockers) > 0 && rapid.IntRange(0, 9).Draw(rt, lbl("lockerop")) < 6 {
+	if len(cfg.Lockers) > 0 && rapid.IntRange(0, 9).Draw(rt, lbl("lockerop")) < lockerWeight(m.prop) {
 		return m.genLockerOp(rt, i)
 	}
 	if cfg.Liq != nil && rapid.IntRange(0, 9).Draw(rt, lbl("liqop")) < 5 {
